@@ -323,6 +323,23 @@ ADDED7 = {
 }
 
 
+ADDED8 = {
+ "C02": "Grouped tables under different gene and transcript strategies.",
+ "C03": "Structure K5 (known isoform whose reads start deep inside the first exon).",
+ "C04": "Hand-built annotation shapes (unspliced reference transcript first in its gene).",
+ "C05": "L1 histories: two clusters through one storage object.",
+ "C06": "Variant rerun (same command line again into the folder of the first run).",
+ "C09": "Files of an experiment sharing their base name.",
+ "C11": "Function-level mirror levels L0: thread_ends/thread_starts, collect_terminal_positions, cluster_polya_positions, cluster_monoexons, cluster_introns, simplify, verify_polya/verify_polyt, compare_junctions, penalty order.",
+ "C12": "Flag-history case (partly incomplete annotation, both --complete_genedb values under one HOME).",
+ "C14": "Extended CIGAR strings (= / X); gene with a 5-bp annotated intron.",
+ "C15": "Reference window of reloaded gene infos (loaders get a chromosome record).",
+ "C16": "Removed terminal exons lie beyond the tail or are mostly tail.",
+ "C17": "Several experiments in one invocation.",
+ "C20": "Level shared-files: two complete runs on the real file system, shared files are never rewritten in place.",
+}
+
+
 def main():
     props = [json.loads(l) for l in open(os.path.join(HERE, "properties.jsonl"))]
     checks = []
@@ -331,7 +348,7 @@ def main():
         pid = p["id"]
         if pid in CHECKS:
             level, tech, text, note, ref = CHECKS[pid]
-            text = text + ADDED.get(pid, "") + (" " + ADDED2[pid] if pid in ADDED2 else "") + (" " + ADDED3[pid] if pid in ADDED3 else "") + (" " + ADDED4[pid] if pid in ADDED4 else "") + (" " + ADDED5[pid] if pid in ADDED5 else "") + (" " + ADDED6[pid] if pid in ADDED6 else "") + (" " + ADDED7[pid] if pid in ADDED7 else "")
+            text = text + ADDED.get(pid, "") + (" " + ADDED2[pid] if pid in ADDED2 else "") + (" " + ADDED3[pid] if pid in ADDED3 else "") + (" " + ADDED4[pid] if pid in ADDED4 else "") + (" " + ADDED5[pid] if pid in ADDED5 else "") + (" " + ADDED6[pid] if pid in ADDED6 else "") + (" " + ADDED7[pid] if pid in ADDED7 else "") + (" " + ADDED8[pid] if pid in ADDED8 else "")
             checks.append({
                 "property_id": pid,
                 "quick_cmd": "./check %s --tier quick" % pid,
